@@ -86,7 +86,7 @@ func (muxer *Muxer) Close() error {
 
 	muxer.closed = true
 	verifhook.Point("flvmuxer.close.flagged", muxer)
-	muxer.recvQueue.Signal()
+	muxer.recvQueue.Push(nil) // 加锁入列 nil 唤醒处理 routine，避免信号丢失
 	return nil
 }
 
